@@ -121,7 +121,8 @@ fn lin<'a>(cfg: &TCfg, spec: &'a Spec<Shared, i64>, tier: Tier) -> LinCheck<'a, 
         site: "AdaptiveService_threads",
         label: cfg.label(),
         spec,
-        bounds: tier.pick(vec![Some(0), Some(1), Some(2)], vec![Some(0), Some(1), Some(2), Some(3)]),
+        // (three threads: two preemptions; a third runs into the schedule cap)
+        bounds: tier.pick(vec![Some(0), Some(1), Some(2)], if cfg.programs.len() >= 3 { vec![Some(0), Some(1), Some(2)] } else { vec![Some(0), Some(1), Some(2), Some(3)] }),
         max_schedules: tier.pick(100_000, 1_000_000),
         observe: &observe,
         extra: &extra,
